@@ -240,9 +240,17 @@ struct BuildCtx {
     if (str_mode == 1) return false;
     return (mix64(seed ^ (0x5151ULL + ord++)) & 1) != 0;
   }
+  // const (non-copied) strings are views into caller memory; some views share one buffer (a shorter string that
+  // is a prefix of an earlier, longer one starts at the same address)
+  std::vector<std::pair<char*, std::string>>* shared = nullptr;
   const char* konst(const std::string& s) {
+    if (shared && !s.empty()) {
+      uint64_t h = mix64(seed ^ (0x9191ULL + ord));
+      if (h & 1) for (auto& e : *shared) if (e.second.size() >= s.size() && e.second.compare(0, s.size(), s) == 0) return e.first;
+    }
     char* p = simmem::caller_buf(s.data(), s.size() ? s.size() : 1, simmem::PL_AUTO);
     keep->push_back(p);
+    if (shared && shared->size() < 64) shared->push_back({p, s});
     return p;
   }
 };
